@@ -37,9 +37,10 @@ pub fn wildcard_match(wild: &str, tame: &str) -> bool {
         } else {
             // If the tame string has more characters
 
-            if tame_char != wild_char {
+            if tame_char != wild_char || wild_char == Some('*') {
                 // If the tame character and the wild character do not match, the only way they can be identical is if there
-                //   was previously or is currently a wildcard character
+                //   was previously or is currently a wildcard character. A wildcard character in the wild string is always a
+                //   wildcard, even if the tame string happens to contain a literal '*' at this position.
                 // For example, "abcd" matches "abc*" and "a*"
                 if wild_char == Some('*') {
                     // If the wild character is a wildcard character, store the position after it along with the
